@@ -11,13 +11,19 @@ ap.add_argument("--budget", type=int, default=20)
 ap.add_argument("--checks", default=",".join(ALL))
 ap.add_argument("--mutants", default="")
 ap.add_argument("--own-only", action="store_true")
+ap.add_argument("--neighbours", action="store_true", help="own property's check plus the checks of related properties")
+ap.add_argument("--fresh", action="store_true", help="discard earlier results")
+NEIGH = {"C01": ["C01", "C02", "C04", "C06"], "C02": ["C02", "C01", "C06", "C13"], "C04": ["C04", "C08", "C12", "C06"],
+         "C05": ["C05", "C06", "C12"], "C06": ["C06", "C05"], "C08": ["C08", "C04", "C06", "C16"], "C09": ["C09", "C08"],
+         "C11": ["C11", "C18"], "C12": ["C12", "C04", "C06", "C16"], "C13": ["C13", "C12", "C06", "C01"],
+         "C16": ["C16", "C12", "C08"], "C18": ["C18", "C11", "C12"], "C19": ["C19", "C06"]}
 a = ap.parse_args()
 muts = sorted(d for d in os.listdir(f"{V}/seeded") if os.path.isdir(f"{V}/seeded/{d}") and os.path.exists(f"{V}/seeded/{d}/patch.diff"))
 if a.mutants:
     muts = [m for m in muts if m in a.mutants.split(",")]
 checks = a.checks.split(",")
 out_path = f"{V}/seeded/matrix.json"
-res = json.load(open(out_path)) if os.path.exists(out_path) else {}
+res = json.load(open(out_path)) if (os.path.exists(out_path) and not a.fresh) else {}
 scratch = tempfile.mkdtemp(prefix="jtv_matrix_")
 try:
     for m in muts:
@@ -31,6 +37,8 @@ try:
             continue
         for c in checks:
             if a.own_only and not m.startswith(c):
+                continue
+            if a.neighbours and c not in NEIGH.get(m.split("-")[0], [m.split("-")[0]]):
                 continue
             env = dict(os.environ, VERIF_REPO=wt, VERIF_BUDGET_S=str(a.budget), VERIF_EVIDENCE_DIR=os.path.join(scratch, "ev"),
                        VERIF_REPLAY_DIR=os.path.join(scratch, "rp"), VERIF_SHRINK_S="20")
